@@ -192,7 +192,13 @@ def check_case(case):
       return '.'.join(b.selector.split('.')[-2:])
     return names[i]
 
+  def posonly(shape):
+    return (shape['dflt'][:1] if shape.get('posonly_first_default') and not shape['pos'] and
+            shape['kind'] == 'function' and shape['dflt'] else [])
+
   def permitted(shape, p):
+    if p in posonly(shape):
+      return False        # a positional-only parameter cannot be supplied by keyword: not configurable
     allow, deny = shape.get('allowlist'), shape.get('denylist')
     return not (allow and p not in allow) and not (deny and p in deny)
 
@@ -368,7 +374,8 @@ def check_case(case):
       pi, entries, args, kwargs = performed[-1]
       shape = builts[pi].shape
       free = [p for p in G.named_params(shape)
-              if p not in kwargs and p not in (shape['pos'] + shape['dflt'])[:len(args)]]
+              if p not in kwargs and p not in (shape['pos'] + shape['dflt'])[:len(args)] and
+              p not in posonly(shape)]
       if not free:
         continue
       with contextlib.ExitStack() as es:
@@ -442,7 +449,7 @@ def check_case(case):
           args.append('C:' + p)
           supplied.add(p)
       for p in spec['kw']:
-        if p in positional[:n_pos] or p not in G.named_params(shape):
+        if p in positional[:n_pos] or p not in G.named_params(shape) or p in posonly(shape):
           continue
         if p in spec['req'] and p in app:
           kwargs[p] = gin.REQUIRED
@@ -616,6 +623,9 @@ def _static_case(draw):
         shape['dflt'] = ['v']
     if draw(st.integers(0, 3)) == 0:
       shape['read_operative'] = True
+    if shape['kind'] == 'function' and not shape['pos'] and shape['dflt'] and not shape[
+        'varkw'] and draw(st.integers(0, 3)) == 0:
+      shape['posonly_first_default'] = True
     if shape['kind'] == 'function' and (shape['dflt'] or shape['kwdflt']) and draw(st.integers(0, 2)) == 0:
       # a twin made by the same `def` with other default values is registered first
       shape['twin_other_defaults'] = True
@@ -623,7 +633,8 @@ def _static_case(draw):
     if defaulted and draw(st.booleans()):
       shape['nonliteral_defaults'] = draw(st.lists(st.sampled_from(defaulted), unique=True,
                                                    max_size=2))
-    named = G.named_params(shape)
+    named = [p for p in G.named_params(shape)
+             if not (shape.get('posonly_first_default') and shape['dflt'][:1] == [p])]
     lists = draw(st.sampled_from(['none', 'none', 'allow', 'deny']))
     if lists != 'none' and named and shape['kind'] != 'method':
       shape['allowlist' if lists == 'allow' else 'denylist'] = draw(
